@@ -153,6 +153,13 @@ class CountFeatureCompressionTransformer(BaseEstimator, TransformerMixin):
         rescaled_data = scipy.sparse.csr_matrix(normed_data)
         rescaled_data.data = np.power(normed_data.data, self.rescaling_power)
 
-        result = (rescaled_data @ self.components_.T) / self.component_scaling_
+        # a (numerically) zero singular value marks a direction in which the training
+        # data has no extent: fit_transform returned u * sqrt(s) = 0 there, and dividing
+        # the rounding noise of the projection by sqrt(s) would blow it up instead
+        scaling = self.component_scaling_
+        inverse_scaling = np.zeros_like(scaling)
+        nonzero = scaling > np.sqrt(np.finfo(np.float64).eps) * np.max(scaling)
+        inverse_scaling[nonzero] = 1.0 / scaling[nonzero]
+        result = (rescaled_data @ self.components_.T) * inverse_scaling
 
         return result
